@@ -533,6 +533,8 @@ def main(tier="quick", seed=0, procs=None, only=None):
     try:
         runtime_part(run, tier, seed)
         nested_part(run, tier, seed)
+        from . import c06
+        c06.float_part(run, seed)          # batch statistics and the running variance on un-centred float operands (identical over the reals, not in floats)
     except Exception as e:
         run.error("runtime part failed", e)
     return run.finish()
